@@ -179,6 +179,12 @@ def compare(pid, cases, results, rng, L_of, tag="joltcorr", npert=NPERT):
             # the model's own discrete behaviour changes under one-ulp perturbations of this
             # trace: the decision margins are not clear, the difference is not held against anyone
             stats["skipped_unstable"] += 1
+            # report the excusals by kind, so that an arm that is ALWAYS excused becomes visible
+            kind = ("iteration-count" if "model stops after" in why[0] else
+                    "direction" if "search direction" in why[0] else
+                    "result" if why[0].startswith("result") else "other")
+            ex = stats.setdefault("excused_by_kind", {})
+            ex[kind] = ex.get(kind, 0) + 1
         elif why:
             stats["mismatch"] += 1
             mism.append((i, fn, "; ".join(why[:3])))
